@@ -18,12 +18,17 @@ def type_guards(ctx, body):
         if c.kind != "cmp" or c.op not in ("Eq", "Ne"):
             continue
         for x, y in ((c.a, c.b), (c.b, c.a)):
+            val = None
             if x.get("k") == "const" and x.get("uneval") and x["uneval"]["name"] == "PACKET_ID" and isinstance(x["uneval"]["eval"], int):
+                val = x["uneval"]["eval"]
+            elif x.get("k") == "const" and isinstance(x.get("val"), int) and not isinstance(x.get("val"), bool) and y.get("k") != "const":
+                val = x["val"]          # an arm of `match packet_type { PublishTx::PACKET_ID => .. }` (the value, the name is gone)
+            if val is not None:
                 ya = body.atoms(y)
-                if any(a[0] == "field" and a[2] == "packet" for a in ya):
+                if any(a[0] == "field" and a[2] == "packet" for a in ya) and val in types:
                     succ = c.true_succ if c.op == "Eq" else c.false_succ
                     other = c.false_succ if c.op == "Eq" else c.true_succ
-                    out[types.get(x["uneval"]["eval"], str(x["uneval"]["eval"]))] = (b, succ, other)
+                    out[types.get(val, str(val))] = (b, succ, other)
     return out
 
 
@@ -51,10 +56,16 @@ def quota_writes(ctx):
     # a helper inlined there is seen at the place where it takes effect, and the helper's own body is not counted again
     inlined = set(hp.fn.get("inlined", [])) | set(hm.fn.get("inlined", []))
     bodies = [hp, hm]
+    try:
+        hc = ctx.flat(ctx.body(r"client::context::Context::<[^>]*>::handle_connack$"))      # with a `reset(max)` helper in place
+        inlined |= set(hc.fn.get("inlined", []))
+        bodies.append(hc)
+    except AnchorLost:
+        hc = None
     for f in ctx.facts.fns:
         if "context" not in f["path"] and "client" not in f["path"]:
             continue
-        if f["path"] in (hp.path, hm.path) or f["path"] in inlined:
+        if f["path"] in (hp.path, hm.path) or f["path"] in inlined or (hc is not None and f["path"] == hc.path):
             continue
         bodies.append(ctx.world.body(f["path"]))
     for body in bodies:
@@ -78,7 +89,7 @@ def quota_writes(ctx):
                     one = body.fold(src["b"])
                     if isf(src["a"]) and one == 1:
                         kind = "dec" if src["op"] == "Sub" else "inc"
-                elif any(a[0] == "field" and a[2] == "remote_receive_maximum" for a in body.rv_atoms(rv)):
+                elif any(a[0] == "field" and (a[2] == "remote_receive_maximum" or (a[2] == "receive_maximum" and (a[1] or "").endswith("ConnackRx"))) for a in body.rv_atoms(rv)):
                     kind = "reset"
                 raw.append(QW(body, i, st, kind))
     out = []
@@ -116,7 +127,7 @@ def quota_writers(ctx):
                         w.line(),
                         "write of kind '%s' in %s%s" % (kind, where, " (through helper %s)" % w.via.split("::")[-1] if w.via else ""), "dec only in outbound handler, inc only in inbound handler, reset only in handle_connack"))
     # Q8 remote_receive_maximum provenance
-    hc = ctx.body(r"client::context::Context::<[^>]*>::handle_connack$")
+    hc = ctx.flat(ctx.body(r"client::context::Context::<[^>]*>::handle_connack$"))       # a `reset(max)` helper is looked at in place
     found = False
     for i in sorted(hc.reach):
         for st in hc.blocks[i]["stmts"]:
